@@ -137,7 +137,14 @@ func mkEPUB(opfPath string, items []epubItem, spine []string, extra []zipMember,
 	}
 	opf.WriteString(`</manifest><spine>`)
 	for _, id := range spine {
-		fmt.Fprintf(&opf, `<itemref idref="%s"/>`, id)
+		// "id|no": an auxiliary item (linear="no"); it keeps its place in the reading order
+		if strings.HasSuffix(id, "|no") {
+			fmt.Fprintf(&opf, `<itemref idref="%s" linear="no"/>`, strings.TrimSuffix(id, "|no"))
+		} else if strings.HasSuffix(id, "|yes") {
+			fmt.Fprintf(&opf, `<itemref idref="%s" linear="yes"/>`, strings.TrimSuffix(id, "|yes"))
+		} else {
+			fmt.Fprintf(&opf, `<itemref idref="%s"/>`, id)
+		}
 	}
 	opf.WriteString(`</spine></package>`)
 	var ms []zipMember
